@@ -512,7 +512,7 @@ func (l *Lexer) readHTML() string {
 			break
 		}
 
-		if escapedDir || escapedBraces {
+		if (escapedDir || escapedBraces) && out.Len() > 0 {
 			out.Truncate(out.Len() - 1)
 		}
 
